@@ -576,6 +576,21 @@ TABR_THEOREMS = ["AurelVerif.CacheGet.cohM_test_vs", "AurelVerif.CacheGet.feasib
         "loc_st_Riemann_down4_betaup3_matter", "loc_st_Riemann_down4_dflt_matter",
         "loc_st_Riemann_down4_betaup3_vacuum", "loc_st_Riemann_down4_dflt_vacuum")] + [
     "AurelVerif.C01Tab." + t for t in ("betaup3_zero", "coh_120", "hardCoh4_of", "tab_transparent_inputs3")]
+# extension round 7: st_Ricci_down4 (122) and st_Ricci_down3 (123) discharged ON SHELL against the constructed denotation
+# (return site of st_Riemann_uddd4 generated); HardCoh3 shrinks to HardCoh1 = st_Weyl_down4; 155-key sub-table on shell with
+# no hypothesis about a body; non-vacuity at the Kasner point (Props/C01TabSEx.lean)
+TABS_MODULE = "AurelVerif.Props.C01TabS"
+TABS_THEOREMS = ["AurelVerif.C01Loc." + t for t in (
+    "loc_Ktrace", "loc_st_Riemann_uddd4", "loc_st_Ricci_down4_dflt", "loc_st_Ricci_down4_Tdown4",
+    "loc_st_Ricci_down3_dflt", "loc_st_Ricci_down3_cached")] + [
+    "AurelVerif.C01Tab." + t for t in (
+        "gup4c_E", "Ktrace_E", "ric3_E", "mainardi_E", "R3_E", "Ru_E", "eval_120", "Rd_E_matter", "Rd_E_vacuum",
+        "Ttrace_key_E", "Ttrace_E", "coh_122", "coh_123", "hardCoh3_of", "sub155_closed", "hardCoh_155",
+        "sub155_transparent_onshell", "tab_transparent_onshell_partial")]
+TABSEX_MODULE = "AurelVerif.Props.C01TabSEx"
+TABSEX_THEOREMS = ["AurelVerif.C01Tab." + t for t in (
+    "cohM_const", "evalShape_const", "jetK", "jetCK", "k_ricci", "k_T", "k_curv", "k_onshell", "k_inputs", "k_shell",
+    "k_shell_vacuum", "k_hard1")]
 
 
 def necessity_witnesses(ctx):
@@ -631,7 +646,8 @@ COHERENCE_LEAN_FILES = ["AurelVerif/Props/C01Coherence.lean", "AurelVerif/Props/
                         "AurelVerif/Props/C01Tab.lean", "AurelVerif/Props/C01TabT.lean", "AurelVerif/Gen/C01Table.lean",
                         "AurelVerif/Lemmas/C01Loc.lean", "AurelVerif/Props/C01TabG.lean", "AurelVerif/Props/C01TabH.lean",
                         "AurelVerif/Props/C01TabX.lean", "AurelVerif/Props/C01TabR.lean", "AurelVerif/Lemmas/C01LocR.lean",
-                        "AurelVerif/Lemmas/CacheDenMid.lean"]
+                        "AurelVerif/Lemmas/CacheDenMid.lean", "AurelVerif/Lemmas/C01LocS.lean",
+                        "AurelVerif/Props/C01TabS.lean", "AurelVerif/Props/C01TabSEx.lean"]
 
 # --------------------------------------------------------------------------
 # the coherence table: every guard of the source -> class -> covering theorems
@@ -860,10 +876,16 @@ def coherence_table(ctx, info, index, proven):
                                              "sub139_transparent[_plain], sub147_transparent: consistency of redundantly supplied "
                                              "derived names, alpha != 0, det gamma != 0); outside: st_Riemann_down4 (coherent for "
                                              "every input: C01Tab.coh_120), the three class (c) bodies st_Ricci_down4, "
-                                             "st_Ricci_down3, st_Weyl_down4 and the 10 keys that read them; "
+                                             "st_Ricci_down3, st_Weyl_down4 and the 10 keys that read them; ON SHELL 155 keys "
+                                             "(all but st_Weyl_down4 and the 5 keys that read it) with no hypothesis about a "
+                                             "body: C01Tab.sub155_transparent_onshell (coh_122, coh_123); "
                                              "25 keys with a hand-written denotation (C01Sub.sub_transparent)",
         "full_table": "C01Tab.tab_transparent_inputs3: all 161 keys under InputsOK (inputs) and HardCoh3 = branch coherence of "
-                      "st_Ricci_down4, st_Ricci_down3, st_Weyl_down4 only (C01Tab.tab_transparent: under HardCoh, 8 bodies)"}
+                      "st_Ricci_down4, st_Ricci_down3, st_Weyl_down4 only (C01Tab.tab_transparent: under HardCoh, 8 bodies); "
+                      "ON SHELL (ShellHyp: CurvHyp + Einstein's equations for the jet assembled from the denotations) "
+                      "C01Tab.sub155_transparent_onshell: 155 keys (all but st_Weyl_down4 and the 5 keys that read it), NO "
+                      "hypothesis about a body; C01Tab.tab_transparent_onshell_partial: all 161 keys under HardCoh1 = coherence of "
+                      "the body of st_Weyl_down4 only"}
     ctx.obligation("coherence coverage: every guard and every cache-dependent alternative of the current source has a "
                    "proven coherence theorem (%d guards, %d alternatives, %d known gap)"
                    % (len(info["guards"]), len(need), len([a for a in need if a in gaps])),
@@ -954,6 +976,8 @@ def run(ctx):
                 ctx.prove(TABH_MODULE, TABH_THEOREMS, timeout=2400)
                 ctx.prove(TABX_MODULE, TABX_THEOREMS, timeout=2400)
                 ctx.prove(TABR_MODULE, TABR_THEOREMS, timeout=2400)
+                ctx.prove(TABS_MODULE, TABS_THEOREMS, timeout=2400)
+                ctx.prove(TABSEX_MODULE, TABSEX_THEOREMS, timeout=2400)
                 necessity_witnesses(ctx)
             ctx.forbidden_scan(COHERENCE_LEAN_FILES)
             if info is not None:
@@ -965,7 +989,8 @@ def run(ctx):
     except Exception as ex:  # noqa
         ctx.obligation("coherence theorems", False, "could not be checked: %r" % ex)
     if ctx.tier == "thorough":
-        ctx.leanchecker([MODULE, SHARP_MODULE, SUB_MODULE, TAB_MODULE, TABT_MODULE, TABG_MODULE, TABH_MODULE, TABX_MODULE, TABR_MODULE])
+        ctx.leanchecker([MODULE, SHARP_MODULE, SUB_MODULE, TAB_MODULE, TABT_MODULE, TABG_MODULE, TABH_MODULE, TABX_MODULE, TABR_MODULE, TABS_MODULE,
+                         TABSEX_MODULE])
     # correspondence (bookkeeping) — shared harness with C03
     runs = C03.correspondence(ctx, "C01", ctx.budget(12, 60), ctx.budget(30, 60))
     # independent search oracle (always; larger when something is broken)
@@ -1045,22 +1070,51 @@ MANIFEST = {
             "gammadet, gammadown3, Momentumx|y|z is supplied), sub147_transparent (sub-tables closed under reads: "
             "sub125|139|147_closed) and tab_transparent_inputs3: all 161 keys, every history, policy, D, option valuation, "
             "under InputsOK and HardCoh3 = coherence of the three class (c) bodies st_Ricci_down4, st_Ricci_down3, "
-            "st_Weyl_down4 only. A guard or cache-dependent alternative that "
+            "st_Weyl_down4 only. Extension round 7 (Props/C01TabS.lean, C01TabSEx.lean, Lemmas/C01LocS.lean; the return site of "
+            "st_Riemann_uddd4 is now generated: 150 keys, 191 return sites): two of those three are discharged ON SHELL against "
+            "the constructed denotation - coh_122 (st_Ricci_down4: Lambda g + kappa (T - T g/2) vs contraction of the Riemann "
+            "tensor) and coh_123 (st_Ricci_down3: spatial block of st_Ricci_down4 vs the Einstein-equation form), for vacuum = "
+            "False and vacuum = True, shift key supplied or not, Tdown4 supplied or computed from the fluid variables. Their "
+            "hypothesis ShellHyp is about the environment E of the denotation, the operator D and the inputs only: CurvHyp E T "
+            "(Layer B: Leibniz/commuting D, metric-compatible connection, the denotation of s_Riemann_down3 is the textbook "
+            "3-Riemann tensor), Einstein's equations for the jet assembled from the denotations of alpha, beta, gamma, K, "
+            "dtalpha, dtbetaup3 and free second time derivatives T (OnShell E T; with vacuum = True: Ricci-flat, Tdown4 = 0, "
+            "Lambda = 0), and consistency (Cons, void when not supplied) of Ktrace, Ttrace, s_Ricci_down3, st_Riemann_uddd4, "
+            "st_Riemann_down4, st_Ricci_down3 when supplied as inputs; every cached-entry hypothesis `e.X = X e` of the per-guard "
+            "theorems of Props/C01CoherenceC.lean (MainardiCached, RicciChain, hRd, hTt, hR4) is DERIVED from the unfolding "
+            "equation of the denotation with locality lemmas (gup4c_E, Ktrace_E, ric3_E, R3_E, Ru_E, Rd_E_matter|vacuum, "
+            "Ttrace_E). Hence sub155_transparent_onshell: the real table without st_Weyl_down4, Weyl_Psi, Psi4_lm, "
+            "Weyl_invariants, eweyl_u_down4, bweyl_u_down4 (155 keys, closed under reads: sub155_closed), every field, every "
+            "D and T with CurvHyp, every input dictionary with InputsOK that solves Einstein's equations, every admissible "
+            "policy, every history: the value returned is the denotation = what a fresh instance returns - no hypothesis "
+            "about any body; tab_transparent_onshell_partial: all 161 keys under HardCoh1 = coherence of the body of "
+            "st_Weyl_down4 alone. Non-vacuity at the Kasner point (non-zero Riemann tensor; Tdown4 computed from a fluid of "
+            "zero density and pressure, so both outcomes of the guards occur): k_inputs, k_shell, k_hard1. "
+            "A guard or cache-dependent alternative that "
             "appears in the source without a registered, proven theorem is reported as uncovered and breaks an obligation.",
     "note": "Trusted: Lean kernel + standard axioms; the AST translator of the dependency shapes (validated against every "
             "recorded real miss); the symbolic-execution translator of the formulas (translation validation each run); the "
-            "hand models (trace replay). NOT proven: coherence of the Riemann-based and the E/B-based st_Weyl_down4 (needs: "
-            "electric/magnetic parts of the Riemann-based tensor are eweyl_n/bweyl_n, and uniqueness of a Weyl-like tensor "
-            "with given parts) - oracle only [superseded: Props/C10Coh.lean]; the per-guard theorems of the three class (c) "
-            "bodies st_Ricci_down4, st_Ricci_down3, st_Weyl_down4 (coherent on solutions of Einstein's equations only: "
-            "Props/C01CoherenceC.lean, Props/C10Coh.lean, stated with hypotheses `e.X = X e`, OnShell and Layer-B "
-            "hypotheses) are NOT yet discharged against the constructed denotation: they enter "
-            "C01Tab.tab_transparent_inputs3 as the hypothesis HardCoh3, and the 14 keys st_Riemann_uddd4, st_Riemann_down4, "
-            "st_Riemann_uudd4, st_Ricci_down4, st_Ricci_down3, st_RicciS, Einsteindown4, Kretschmann, st_Weyl_down4, Weyl_Psi, "
-            "Psi4_lm, Weyl_invariants, eweyl_u_down4, bweyl_u_down4 are outside the 147-key theorem; for gdet, Ttrace, "
+            "hand models (trace replay). NOT proven: the body of st_Weyl_down4 (Riemann-based vs E/B-based construction; "
+            "per-guard theorems Props/C10Coh.lean: T13e off shell, T13f on shell, T13g vacuum, T13h no shift) is NOT discharged "
+            "against the constructed denotation: it enters C01Tab.tab_transparent_onshell_partial as the hypothesis HardCoh1, and "
+            "the 6 keys st_Weyl_down4, Weyl_Psi, Psi4_lm, Weyl_invariants, eweyl_u_down4, bweyl_u_down4 are outside the 155-key "
+            "on-shell theorem. Missing, precisely: (1) its return sites cannot be generated - the body calls s_to_st three "
+            "times, each testing `not any(shift key in self.data)`; return sites 3 and 4 are reached only when that test "
+            "changes its outcome between two calls of ONE body (eviction of betaup3 in between) and no traced alternative of "
+            "Gen/CoreBig_st_Weyl_down4 has such a presence set (c01table.site_map rejects the key; needs two more traced "
+            "alternatives from the core translator); (2) nested presence tests of keys with a method after reads: "
+            "cohM_test_vs at each of the three tests with betaup3_zero + st_Weyl_down4_shift_coherent (pattern of coh_120); (3) "
+            "Cons + locality lemma for st_RicciS, Stressup3_n, Stressdown3_n, eweyl_n_down3, bweyl_n_down3, nup4, ndown4, gdet "
+            "to derive the remaining cached-entry hypotheses of C10.st_Weyl_down4_*_coherent (the others are available: "
+            "mainardi_E, R3_E, Rd_E_*, Ttrace_E), the analytic part of C10.EBCached (sqrt exact on -g, positive lapse, "
+            "MetricOK, Deriv D) staying a hypothesis on E. The on-shell theorems (coh_122, coh_123, sub155_transparent_onshell) "
+            "carry Layer-B hypotheses (CurvHyp: exact differentiation - the real finite-difference operators satisfy them up "
+            "to truncation error only) and Einstein's equations for the assembled jet: off shell the alternatives of "
+            "st_Ricci_down4 / st_Ricci_down3 differ by O(100) on generic smooth fields (DESIGN 11.7), so the hypothesis is "
+            "necessary; without them: C01Tab.tab_transparent_inputs3 (hypothesis HardCoh3) and the 147-key theorem; for gdet, Ttrace, "
             "s_Ricci_down3, Momentumup3 the theorems carry hypotheses about the inputs (InputsOK: consistency of redundantly "
             "supplied derived names - necessary, see the replayed witnesses; regular metric for Ttrace/s_Ricci_down3 - "
-            "det gamma != 0 is sufficient, not shown necessary); the return-site formulas of 12 keys (st_Riemann_uddd4, "
+            "det gamma != 0 is sufficient, not shown necessary); the return-site formulas of 11 keys ("
             "st_Riemann_uudd4, st_Weyl_down4, Kretschmann, eweyl_u_down4, bweyl_u_down4, Weyl_Psi, Psi4_lm, Weyl_invariants, "
             "dtconserved, ...) are the arbitrary parameter `rest` (every theorem holds for every choice); "
             "in Gen/C01Table a key read several times in one body is represented by its "
